@@ -104,6 +104,38 @@ class Interp:
         self.nsym = 0
         self.stack = []
         self.static_cache = {}
+        self.lengths = {}
+        self.cur_env = None
+
+    def length_of(self, t, e=None):
+        """statically known length of an array/slice-valued term"""
+        if isinstance(e, dict):
+            ty = strip_ref(e.get("tya") or e.get("ty") or "")
+            m = re.match(r"\[[^;\]]+; (\d+)\]$", ty)
+            if m:
+                return int(m.group(1))
+            ty = strip_ref(e.get("ty") or "")
+            m = re.match(r"\[[^;\]]+; (\d+)\]$", ty)
+            if m:
+                return int(m.group(1))
+        if t.op == "array":
+            return len(t.args)
+        if t.op == "repeat" and isinstance(t.args[1], int):
+            return t.args[1]
+        if t.op == "chunk":
+            return t.args[1]
+        if t.op == "store":
+            return self.length_of(t.args[0])
+        return self.lengths.get(t)
+
+    def length_of_place(self, pr):
+        env = self.cur_env or {}
+        v = env.get(pr.args[0])
+        if v is None:
+            return None
+        for kind, x in pr.args[1]:
+            v = field(v, x) if kind == "f" else index(v, x)
+        return self.length_of(v)
 
     # ---- helpers -----------------------------------------------------------------------------
     def fresh(self, hint):
@@ -288,6 +320,9 @@ class Interp:
         if k == "Path":
             r = e["r"]
             if r.get("res") == "Local":
+                v = env.get(r["id"])
+                if v is not None and v.op == "placeref":
+                    return (v.args[0], list(v.args[1]))
                 return (r["id"], [])
             return None
         if k == "Field":
@@ -302,7 +337,12 @@ class Interp:
             r = self.expr(e["idx"], env, fr)
             if r is None:
                 return None
-            return (b[0], b[1] + [("i", r[0])])
+            bv = self.read_place((b[0], b[1]), env)
+            ix = self.full_range(r[0], bv, e["base"])
+            if ix.op == "rangefull":
+                n_ = self.length_of(bv, e["base"])
+                return (b[0], b[1])
+            return (b[0], b[1] + [("i", ix)])
         if k in ("Paren", "AddrOf"):
             return self.place(e["x"], env, fr)
         if k == "Unary" and e["op"] == "Deref":
@@ -509,9 +549,23 @@ class Interp:
         if r is None:
             return None
         (b, i), env = r
+        i = self.full_range(i, b, e["base"])
+        n_ = self.length_of(b, e["base"])
+        if n_ is not None and i.op == "rangefull":
+            self.lengths[b] = n_
         site = {"sp": e.get("sp"), "fn": fr.path, "base_ty": e["base"].get("tya") or e["base"].get("ty"), "mac": e.get("mac")}
         fr.out.effects.append((env["$pc"], "index", (b, i), site))
         return (index(b, i), env)
+
+    def full_range(self, i, b, base_expr):
+        """`x[..n]` / `x[0..n]` with n = len(x) is the whole of x"""
+        if i.op == "struct" and i.args[0] in ("core::ops::RangeTo", "core::ops::Range"):
+            d = dict(zip(i.args[1], i.args[2:]))
+            n = self.length_of(b, base_expr)
+            st = d.get("start")
+            if n is not None and Tm.is_lit(d.get("end")) and d["end"].args[0] == n and (st is None or (Tm.is_lit(st) and st.args[0] == 0)):
+                return mk("rangefull")
+        return i
 
     def x_Unary(self, e, env, fr):
         r = self.expr(e["x"], env, fr)
@@ -524,6 +578,8 @@ class Interp:
         if op == "Deref":
             if "callee" in e:
                 return self.do_call(e["callee"], [v], [e["x"]], e, env, fr)
+            if v.op == "placeref":
+                return (self.read_place((v.args[0], list(v.args[1])), env), env)
             return (v, env)
         if op == "Not":
             if e["ty"] == "bool":
@@ -882,6 +938,7 @@ class Interp:
         if r is None:
             return None
         it, env = r
+        self.cur_env = env
         seq = self.S.concrete_seq(self, it)
         if seq is not None and len(seq) <= self.opts.get("unroll_max", UNROLL_MAX):
             cur = env
@@ -1018,6 +1075,7 @@ class Interp:
             if k2 is not None:
                 key = k2
         places = [self.place(x, env, fr) if isinstance(x, dict) else None for x in arg_exprs]
+        self.cur_env = env
         ctx = CallCtx(self, c, key, args, arg_exprs, places, e, env, fr, site)
         r = self.S.summarize(ctx)
         if r is not NotImplemented:
